@@ -133,6 +133,12 @@ func exprToCoq(e ast.Expr, rename map[string]string) string {
 			return "(wsub " + exprToCoq(x.X, rename) + " " + exprToCoq(x.Y, rename) + ")"
 		case token.REM:
 			op = "mod"
+		case token.OR:
+			return "(N.lor " + exprToCoq(x.X, rename) + " " + exprToCoq(x.Y, rename) + ")"
+		case token.AND:
+			return "(N.land " + exprToCoq(x.X, rename) + " " + exprToCoq(x.Y, rename) + ")"
+		case token.AND_NOT:
+			return "(N.ldiff " + exprToCoq(x.X, rename) + " " + exprToCoq(x.Y, rename) + ")"
 		}
 		if op != "" {
 			return "(" + exprToCoq(x.X, rename) + " " + op + " " + exprToCoq(x.Y, rename) + ")"
@@ -225,6 +231,49 @@ func findAssignLit(fn *ast.FuncDecl, lhs string) ast.Expr {
 	})
 	if out == nil {
 		die("literal assignment to %s not found in %s", lhs, fn.Name.Name)
+	}
+	return out
+}
+
+// findOrAssign returns the RHS of the first statement `lhs |= rhs` in fn whose LHS renders (dots
+// as underscores) to lhs.
+func findOrAssign(fn *ast.FuncDecl, lhs string) ast.Expr {
+	var out ast.Expr
+	ast.Inspect(fn.Body, func(n ast.Node) bool {
+		if out != nil {
+			return false
+		}
+		if as, ok := n.(*ast.AssignStmt); ok && as.Tok == token.OR_ASSIGN && len(as.Lhs) == 1 && len(as.Rhs) == 1 {
+			if sel, ok := as.Lhs[0].(*ast.SelectorExpr); ok && exprToCoq(sel, nil) == lhs {
+				out = as.Rhs[0]
+				return false
+			}
+		}
+		return true
+	})
+	if out == nil {
+		die("statement %s |= ... not found in %s", lhs, fn.Name.Name)
+	}
+	return out
+}
+
+// findFieldInit returns the value given to field name in the first composite literal of fn that has it.
+func findFieldInit(fn *ast.FuncDecl, name string) ast.Expr {
+	var out ast.Expr
+	ast.Inspect(fn.Body, func(n ast.Node) bool {
+		if out != nil {
+			return false
+		}
+		if kv, ok := n.(*ast.KeyValueExpr); ok {
+			if id, ok := kv.Key.(*ast.Ident); ok && id.Name == name {
+				out = kv.Value
+				return false
+			}
+		}
+		return true
+	})
+	if out == nil {
+		die("field %s: not initialised in %s", name, fn.Name.Name)
 	}
 	return out
 }
@@ -341,6 +390,13 @@ func main() {
 	b.WriteString("(* nullseed.go nullChunkSection.clone *)\n")
 	for _, v := range []string{"dstAlignStart", "dstAlignEnd"} {
 		fmt.Fprintf(&b, "Definition nsclone_%s %s : N := %s.\n", v, nparams, exprToCoq(findAssign(nc, v, 0), nil))
+	}
+	// --- C02: the feature flags IndexFromFile records (make.go) ---
+	{
+		fn := findFunc("IndexFromFile")
+		b.WriteString("\n(* make.go IndexFromFile: FeatureFlags: ... and index.Index.FeatureFlags |= ... for a catar input *)\n")
+		fmt.Fprintf(&b, "Definition make_flags_init (digestFlag : N) : N := %s.\n", exprToCoq(findFieldInit(fn, "FeatureFlags"), nil))
+		fmt.Fprintf(&b, "Definition make_flags_catar (t_FeatureFlags : N) : N := %s.\n", exprToCoq(findOrAssign(fn, "index_Index_FeatureFlags"), nil))
 	}
 	// --- C01: the per-segment row limit of seeds without reflinks (fileseed.go, nullseed.go: `limit = 100`) ---
 	b.WriteString("\n(* fileseed.go FileSeed.LongestMatchWith / nullseed.go nullChunkSeed.LongestMatchWith: limit = ... *)\n")
